@@ -211,7 +211,7 @@ class Shadow:
         self.problems = []      # (what, detail)
         self.state = None
         self.base = info["base"]
-        if self.kind in ("arena", "stack"):
+        if self.kind in ("arena", "stack", "aligned"):
             self.cap = info["size"]
             self.align = info["align"]
         elif self.kind == "pool":
@@ -256,22 +256,31 @@ class Shadow:
         zflag = [x for x in rw if x in ("z0", "z1")]
         if op == "reset" or op == "deallocall":
             self.live.clear()
-        elif op in ("alloc", "alloc0", "spanalloc", "spanalloc0"):
-            h, n = int(toks[1]), int(toks[2])
+        elif op in ("alloc", "alloc0", "spanalloc", "spanalloc0", "xalloc", "xalloc0", "new"):
+            h = int(toks[1])
+            n = 24 if op == "new" else int(toks[2])
             if op.startswith("span"):
-                n = (n * 4) % M64
+                # the bytes the returned span CLAIMS: element count reported by the allocator times #T (exact, no wrap)
+                cnt = [x for x in rw if x.startswith("n") and x[1:].isdigit()]
+                n = int(cnt[0][1:]) * 4 if cnt else (n * 4) % M64
+                if ptr is not None and cnt and int(cnt[0][1:]) != int(toks[2]):
+                    self.bad("span-count", "spanalloc(%s) returned a span of %s elements" % (toks[2], cnt[0][1:]))
+            if op in ("xalloc", "xalloc0", "new") and ptr is None and n > 0:
+                self.bad("x-returned-nil", "%s returned nil instead of raising 'out of memory'" % op)
             self.live.pop(h, None)
             if ptr is not None:
                 self.check_new(h, ptr, n)
                 self.live[h] = {"off": ptr, "size": n, "seed": None, "plen": 0}
-                if op.endswith("0") and n > 0 and zflag != ["z1"]:
+                if (op.endswith("0") or op == "new") and 0 < n < (1 << 40) and zflag != ["z1"]:
                     self.bad("not-zeroed", "%s of %d bytes at offset %d is not all zero" % (op, n, ptr))
             elif expect == "nonnil":
                 self.bad("lost-memory", "after releasing everything %s(%d) fails although it succeeds on a fresh allocator" % (op, n))
-        elif op in ("dealloc", "spandealloc"):
+        elif op in ("dealloc", "spandealloc", "delete"):
             self.live.pop(int(toks[1]), None)
-        elif op in ("realloc", "realloc0", "spanrealloc", "spanrealloc0"):
+        elif op in ("realloc", "realloc0", "spanrealloc", "spanrealloc0", "xrealloc"):
             h, n = int(toks[1]), int(toks[2])
+            if op == "xrealloc" and ptr is None and n > 0:
+                self.bad("x-returned-nil", "xrealloc returned nil instead of raising 'out of memory'")
             if op.startswith("span"):
                 n = (n * 4) % M64
             old = self.live.get(h)
@@ -316,7 +325,7 @@ class Shadow:
     # -- internal state as printed by the driver -------------------------------------------
     def check_state(self, op, toks):
         st = self.state
-        if self.kind in ("arena", "stack"):
+        if self.kind in ("arena", "stack", "aligned"):
             try:
                 prev, curr = [int(x) for x in st.split()]
             except ValueError:
@@ -451,6 +460,12 @@ def pick_size(kind, sh, rng, P, for_realloc=None):
 def _pick_size(kind, sh, rng, P, for_realloc=None):
     """Sizes: 0, 1, align+-1, chunk/bin boundaries, capacity+-1, 2^63, just below the wrap-around zone."""
     r = rng.random()
+    if kind == "aligned":
+        # like the arena it wraps; stay below the request wrap-around of aligned.nelua (known finding)
+        v = _pick_size("arena", sh, rng, P)
+        if rng.random() < .3:
+            v = max(1, sh.cap - getattr(sh, "curr", 0) - 8 - sh.align + rng.choice([0, 1, 2, -1, 7, 8, sh.align, -sh.align]))
+        return min(v, M64 - 8 - sh.align)
     if kind in ("arena", "stack"):
         A, S = sh.align, sh.cap
         hdr = P["STACK_HEADER_SIZE"] if kind == "stack" else 0
@@ -511,6 +526,8 @@ def _pick_size(kind, sh, rng, P, for_realloc=None):
 def max_initial_request(sh, P):
     if sh.kind == "arena":
         return sh.cap - ((-sh.base) % sh.align)
+    if sh.kind == "aligned":
+        return sh.cap - ((-sh.base) % sh.info["ialign"]) - (8 + sh.align - 1)
     if sh.kind == "stack":
         first = (-(sh.base + P["STACK_HEADER_SIZE"])) % sh.align + P["STACK_HEADER_SIZE"]
         return sh.cap - first
@@ -624,7 +641,7 @@ def run_history(R, rng, nops, style):
         b = sh.live.get(h)
         if b and b["seed"] is not None:
             R.do("verify %d %d" % (h, b["seed"]))
-    if kind == "arena":
+    if kind in ("arena", "aligned"):
         R.do("deallocall")
     elif kind == "stack":
         for h in reversed(list(order)):
@@ -686,6 +703,15 @@ REGRESSIONS = [
      "heap realloc-shrink does not coalesce the split remainder with a free successor: memory is lost to fragmentation"),
 ]
 
+# defects of the unchanged tree that are still open: replayed every run, reported under their exact key
+# (listed in known_findings/C11.json; proposed repair in harness/C11/proposed_repairs/)
+KNOWN_DEFECTS = [
+    ("aligned(arena(1024,8),64): alloc 18446744073709551608", "g0", ["alloc 0 18446744073709551608"],
+     "AlignedAllocator:alloc computes size + #pointer + ALIGN - 1 without an overflow test: alloc(2^64-8) asks the wrapped allocator for 63 bytes and returns a non-nil pointer"),
+    ("arena(64,8): spanalloc uint32 x 4611686018427387905", "a0", ["spanalloc 0 4611686018427387905"],
+     "Allocator:spanalloc computes size * #T without an overflow test: spanalloc(@uint32, 2^62+1) asks the allocator for 4 bytes and returns a span of 2^62+1 elements"),
+]
+
 # scripted precondition-violating histories: (name, instance, ops, must_panic_at_last_op)
 VIOLATING = [
     ("heap double free", "h0", ["alloc 0 100", "alloc 1 50", "dealloc 0", "rawdealloc 40"], True),
@@ -702,6 +728,15 @@ VIOLATING = [
     ("stack realloc of foreign pointer", "s0", ["alloc 0 8", "rawrealloc 3 8 8"], True),
     ("pool foreign pointer (not a chunk start)", "p1", ["alloc 0 16", "rawdealloc 4"], True),
     ("pool foreign pointer (beyond buffer)", "p1", ["alloc 0 16", "rawdealloc 256"], True),
+    # the x* variants and new() raise 'out of memory' instead of returning nil
+    ("arena xalloc beyond capacity", "a0", ["xalloc 0 16", "xalloc 1 65"], True),
+    ("arena xalloc0 fits exactly", "a0", ["xalloc0 0 64"], False),
+    ("stack xrealloc of an older block cannot grow", "s0", ["xalloc 0 8", "alloc 1 8", "xrealloc 0 16"], True),
+    ("pool new() on an exhausted pool", "p4", ["alloc 0 16", "new 1"], True),
+    ("heap xalloc0 beyond capacity", "h0", ["xalloc0 0 100", "xalloc0 1 2000"], True),
+    ("heap xrealloc to 2^64-1", "h0", ["xalloc 0 100", "xrealloc 0 18446744073709551615"], True),
+    ("heap new/delete", "h2", ["new 0", "new 1", "delete 0", "xrealloc 1 100", "delete 1", "xalloc 2 4016"], False),
+    ("arena xalloc(0) returns nil without raising", "a1", ["xalloc 0 0", "xalloc0 1 0", "new 2", "delete 2"], False),
 ]
 
 
@@ -794,6 +829,25 @@ def correspond(ctx):
                           detail={"ops": ops}, failing_input=False)
         stats["ops"] += len(R.alllines)
 
+    # ---- 1b. still-open defects: same replay, reported under their recorded key
+    for key, inst, ops, what in KNOWN_DEFECTS:
+        R, infol, died, msg = run_scripted(exe, inst, ops, P)
+        rc, mout, merr = run_model(driver, infol, [l for l, _ in R.lines] if died is None else R.alllines)
+        if died is None:
+            for (l, resp), m in zip(R.lines, mout):
+                if strip_impl(resp) != m:
+                    stats["model_mismatches"] += 1
+                    ctx.violation("model-mismatch:known:" + key, "correspondence",
+                                  "model and implementation disagree on the history of a known defect: at '%s' implementation '%s', model '%s'" % (l, resp, m),
+                                  detail={"ops": ops}, failing_input=False)
+                    break
+        if R.problems or died is not None:
+            why = "; ".join("%s: %s" % (w, d) for w, d, _ in R.problems[:3]) or ("process aborted: %s" % msg)
+            ctx.violation(key, "oracle", "%s -- %s" % (what, why),
+                          detail={"instance": inst, "info": R.impl.info[inst], "ops": ops, "transcript": [list(x) for x in R.lines],
+                                  "replay": replay_cmd(R.alllines), "proposed_repair": "harness/C11/proposed_repairs/"})
+        stats["ops"] += len(R.alllines)
+
     # ---- 2. precondition-violating histories, one process each, outcome compared as an enum
     viol = list(VIOLATING)
     for name, inst, ops, must in viol:
@@ -819,7 +873,7 @@ def correspond(ctx):
     impl = Impl(exe)
     transcript = []     # (history index, line, response)
     hist_meta = []
-    names = {k: [n for n, d in impl.info.items() if d["kind"] == k] for k in ("arena", "stack", "pool", "heap")}
+    names = {k: [n for n, d in impl.info.items() if d["kind"] == k] for k in ("arena", "stack", "pool", "heap", "aligned")}
     # thorough excludes nothing; quick skips the 1 MiB heap for speed except now and then
     nhist = ctx.scale(700, 24000)
     nops = ctx.scale(45, 70)
@@ -883,7 +937,7 @@ def correspond(ctx):
             name = ops[0].split()[0]
             one(name, "corpus", 0, scripted=[" ".join(o.split()[1:]) for o in ops], tag="corpus:" + f)
     styles = ["mixed", "mixed", "lifo", "fifo", "realloc", "realloc", "churn"]
-    kinds = ["arena", "stack", "pool", "heap", "heap", "heap"]
+    kinds = ["arena", "stack", "pool", "heap", "heap", "heap", "aligned"]
     for i in range(nhist):
         kind = kinds[i % len(kinds)]
         pool = names[kind]
